@@ -43,7 +43,21 @@ def c05_1(c: Ctx) -> None:
             continue
         defs = [n for n in own_nodes(u.node) if isinstance(n, (ast.Assign, ast.AnnAssign)) and q.lexically_in(n, br, 'body')
                 and any(isinstance(t, ast.Name) and t.id == arg.id for t in (n.targets if isinstance(n, ast.Assign) else [n.target]))]
-        src = ' / '.join(sorted({U(d.value) for d in defs if d.value is not None})) or '<unbound>'
+        def origins(name: str, depth: int = 0, seen: frozenset = frozenset()) -> set[str]:
+            # follow plain copies (`event = fetched`, as left behind by a folded helper / context manager) back to the expressions that produce the value
+            out: set[str] = set()
+            ds = [n for n in own_nodes(u.node) if isinstance(n, (ast.Assign, ast.AnnAssign)) and q.lexically_in(n, br, 'body') and n.value is not None
+                  and any(isinstance(t, ast.Name) and t.id == name for t in (n.targets if isinstance(n, ast.Assign) else [n.target]))]
+            for d in ds:
+                if isinstance(d.value, ast.Name) and (d.value.id == name or d.value.id in seen):
+                    continue  # `x = x`: no new origin
+                if isinstance(d.value, ast.Name) and depth < 4:
+                    out |= origins(d.value.id, depth + 1, seen | {name}) or {d.value.id}
+                else:
+                    out.add(U(d.value))
+            return out
+
+        src = ' / '.join(sorted(origins(arg.id))) or '<unbound>'
         # a relating test: a branch test mentioning both the local and the awaited event, that the call is control-dependent on
         related = False
         for a in [x for x in q.ancestors_of(call) if isinstance(x, (ast.If, ast.While))]:
@@ -143,7 +157,7 @@ def check_no_inline_processing_after_completion(c: Ctx) -> None:
     for a in procs:
         st = q.stmt_of(a)
         # paths may pass through the call itself (the loop comes back to it), so the call is not a barrier of the search
-        bad = [p for n in g.nodes_of(st) if (p := q.reach_search(g, [(g.entry, {})], lambda m, d, n=n: m is n and d.get(atom) not in ('F', 'Fy'), lambda m, d: False, facts)) is not None]
+        bad = [p for n in g.nodes_of(st) if (p := q.reach_search(g, [(g.entry, {})], lambda m, d, n=n: m is n and d.get(atom) not in ('F', 'Fy'), lambda m, d: False, facts, skip_exc_from=n)) is not None]  # an inline call that *raised* did not process the event to completion: only successful calls count
         if not bad:
             c.ok(where(u, a), 'an event is processed inline only while the awaited event is known incomplete (signal tested since the last suspension)')
         else:
